@@ -1,9 +1,11 @@
 //! C20 harness: the real handle_peer_message / filter_peer, observed at the peer of a scripted
 //! connection.  Result lines start with "R " (the crate prints a freshly created id on stdout).
 //!
-//!   p <iface|-> <member|-> <typ c|s|r|e|i> <serial> <sender|-> <reply serial of the incoming message|-> <flags> <destination|-> <body string|->
+//!   p <iface|-> <member|-> <typ c|s|r|e|i> <serial> <sender|-> <reply serial of the incoming message|-> <flags> <destination|-> <body string|-> [<object path|-> <num_fds|-> <body kind -|u|2>]
 //!        handle_peer_message on a message with that header, then a marker signal; everything
-//!        the peer receives before the marker is what the call wrote
+//!        the peer receives before the marker is what the call wrote.  The three optional fields: the
+//!        object path ("-" = NO path field; default /x), the num_fds header field, and the shape of the
+//!        body (- = the body string alone or an empty body, u = one u32, 2 = a string and a u32)
 //!   u <12 bytes hex> <12 bytes hex>
 //!        (private mount namespace only) first draw into the /dev/urandom fixture, stored id
 //!        removed, GetMachineId; second draw into the fixture, GetMachineId again
@@ -166,14 +168,25 @@ fn opt_string(s: &str) -> Option<String> {
 }
 
 fn make_msg(iface: &str, member: &str, typ: &str, serial: u32, sender: &str, rs: &str) -> MarshalledMessage {
-    make_msg_full(iface, member, typ, serial, sender, rs, 0, "-", "-")
+    make_msg_full(iface, member, typ, serial, sender, rs, 0, "-", "-", &hex(b"/x"), "-", "-")
 }
 
 #[allow(clippy::too_many_arguments)]
-fn make_msg_full(iface: &str, member: &str, typ: &str, serial: u32, sender: &str, rs: &str, flags: u8, dest: &str, body: &str) -> MarshalledMessage {
+fn make_msg_full(
+    iface: &str, member: &str, typ: &str, serial: u32, sender: &str, rs: &str, flags: u8, dest: &str, body: &str, obj: &str, fds: &str, bk: &str,
+) -> MarshalledMessage {
     let mut b = MarshalledMessageBody::new();
-    if let Some(text) = opt_string(body) {
-        b.push_param(text.as_str()).unwrap();
+    match bk {
+        "u" => b.push_param(42u32).unwrap(),
+        "2" => {
+            b.push_param(opt_string(body).unwrap_or_else(|| "a".to_string()).as_str()).unwrap();
+            b.push_param(7u32).unwrap();
+        }
+        _ => {
+            if let Some(text) = opt_string(body) {
+                b.push_param(text.as_str()).unwrap();
+            }
+        }
     }
     MarshalledMessage {
         typ: match typ {
@@ -186,7 +199,8 @@ fn make_msg_full(iface: &str, member: &str, typ: &str, serial: u32, sender: &str
         dynheader: DynamicHeader {
             interface: opt_string(iface),
             member: opt_string(member),
-            object: Some("/x".to_string()),
+            object: opt_string(obj),
+            num_fds: if fds == "-" { None } else { Some(fds.parse().unwrap()) },
             serial: NonZeroU32::new(serial),
             sender: opt_string(sender),
             destination: opt_string(dest),
@@ -298,13 +312,15 @@ fn main() {
         let line = line.unwrap();
         let parts: Vec<&str> = line.split(' ').collect();
         match parts.as_slice() {
-            ["p", iface, member, typ, serial, sender, rs, flags, dest, body] => {
+            ["p", iface, member, typ, serial, sender, rs, flags, dest, body, ..] if parts.len() == 10 || parts.len() == 13 => {
+                let default_obj = hex(b"/x");
+                let (obj, fds, bk) = if parts.len() == 13 { (parts[10], parts[11], parts[12]) } else { (default_obj.as_str(), "-", "-") };
                 let is_get_id = *member == hex(b"GetMachineId");
                 if is_get_id && !in_ns {
                     println!("R refused");
                     continue;
                 }
-                let msg = make_msg_full(iface, member, typ, serial.parse().unwrap(), sender, rs, flags.parse().unwrap(), dest, body);
+                let msg = make_msg_full(iface, member, typ, serial.parse().unwrap(), sender, rs, flags.parse().unwrap(), dest, body, obj, fds, bk);
                 let filter = filter_peer(&msg.dynheader);
                 let pre = if in_ns { read_id_file() } else { "unobserved".to_string() };
                 let draw = if in_ns { hex(&urandom12()) } else { "unobserved".to_string() };
